@@ -75,12 +75,20 @@ func (cg *cgraph) Callees(site ssa.CallInstruction) []*ssa.Function {
 // Reachable returns every function reachable from root through the call graph
 // (including closures created in reachable functions: a MakeClosure is treated
 // as a potential call), with one witness path per function.
-func (cg *cgraph) Reachable(root *ssa.Function) map[*ssa.Function][]*ssa.Function {
+//
+// Only functions accepted by expand are traversed further; the others are
+// recorded as leaves. With expand = "function of the analysed module" the
+// search never walks through the standard library, where CHA resolves every
+// io.Writer.Write to every implementation in the program.
+func (cg *cgraph) Reachable(root *ssa.Function, expand func(*ssa.Function) bool) map[*ssa.Function][]*ssa.Function {
 	out := map[*ssa.Function][]*ssa.Function{root: {root}}
 	work := []*ssa.Function{root}
 	for len(work) > 0 {
 		f := work[0]
 		work = work[1:]
+		if f != root && expand != nil && !expand(f) {
+			continue
+		}
 		add := func(g *ssa.Function) {
 			if g == nil {
 				return
